@@ -265,7 +265,10 @@ LTYPES = [(r'^nano::flatten_loss_t<|^nano::pinball_loss_t$|^nano::loss_t$', 'str
 LOSS_OUT = {'error': 'errors', 'value': 'values', 'vgrad': 'vgrads'}
 
 
-def loss_targets():
+QUICK_LOSSES = ('mse_absdiff', 'classnll_sclass', 'hinge_mclass')
+
+
+def loss_targets(tier='quick'):
     import re
     ts = []
 
@@ -292,6 +295,8 @@ def loss_targets():
             if not m or (m.group(0)) in seen:
                 continue
             seen.add(m.group(0))
+            if tier != 'thorough' and f'{m.group(1)}_{m.group(2)}' not in QUICK_LOSSES:
+                continue        # quick tier: one instantiation per kernel family (the template text is the same for all 16)
             cname = f'loss_{m.group(1)}_{m.group(2)}_{name}'
             f = Fn(cname, LOSS_TU, name, flt='flatten_loss_t', select=mg(m.group(0)), **common())
             contracts = f'#define NV_CONTRACT_{cname} NV_LOSS_FRAME\n#define NV_LOOP_{cname}_1 NV_LOSS_LOOP({LOSS_OUT[name]})\n'
@@ -425,6 +430,56 @@ def dataset_const_targets():
     return ts
 
 
+def lint_vcs():
+    """the static scan as a bounded stand-in (a lint: run, reported, a new unclassified hit fails it, never counted as proof)"""
+    import scan
+    hits = scan.scan()
+    recs, unknown = scan.classify(hits)
+    from collections import Counter
+    summary = ', '.join(f'{n} x {k[0]} [{k[1]}]' for k, n in sorted(Counter((r['kind'], r['class']) for r in recs).items()))
+    about = ('LINT (not a proof): every `mutable` member, variable with static storage duration and const_cast in include/ + src/ is '
+             'classified (covered by a frame proof / per-call / per-task / synchronisation / init-once / named unchecked): ' + summary)
+    if unknown:
+        about += ' -- UNCLASSIFIED: ' + '; '.join(f'{r["file"]}:{r["line"]} {r["kind"]} {r["name"]}: {r["text"]}' for r in unknown[:8])
+    v = VC('static_scan/shared_mutable_state_classified', '(assert true)' if unknown else '(assert false)', about=about, solvers=['z3-new', 'z3'])
+    v.bound = 'token-level scan of the library sources (supporting fact, not a proof)'
+    v.note = '; '.join(f'{r["file"]}:{r["line"]} {r["name"]} [{r["class"]}] {r["why"]}' for r in recs if r['kind'] == 'mutable member')
+    return [v]
+
+
 def build(tier):
-    targets = solver_targets() + iterator_targets() + objective_targets() + loss_targets() + tune_targets() + wlearner_targets() + dataset_const_targets()
-    return {'targets': targets, 'vcs': [], 'decided': [], 'not_decided': [], 'assumptions': [], 'trusted': []}
+    targets = (solver_targets() + iterator_targets() + objective_targets() + loss_targets(tier) + tune_targets() + wlearner_targets()
+               + dataset_const_targets())
+    return {
+        'targets': targets, 'vcs': [], 'bounded': lint_vcs(),
+        'decided': [
+            'METHOD: two threads race on an object only if at least one of them writes it.  Every target is the REAL function (clang AST -> C) under a DFCC contract whose assigns clause is the complete list of what it may write; CBMC checks every store of the extracted text and every footprint write (one per possibly-mutating mention of an erased object, read off clang\'s const analysis) against it, on every path, for all inputs.  C struct layouts are generated from the class definitions on every run (bases flattened, `mutable` recorded), so a member added to a class is part of the frame without touching the spec; pointer / unique_ptr / reference members are C pointers to separate objects (C++ constness does not reach through them, the frame proof does)',
+            'SOLVER shared by all fold / trial tasks: solver_t::minimize() const, solver_t::done() const, solver_t::make_lsearch() const and the bodies do_minimize() const of gd, cgd (all 10 beta formulas), lbfgs, quasi (all 5 update formulas) write NOTHING of the solver object and NOTHING of the two line-search prototypes it owns (m_lsearch0 / m_lsearchk: unique_ptr members, writable through a const solver as far as C++ is concerned); make_lsearch() returns two fresh clones, different from the prototypes, and sets the parameters on the clones; the history-carrying state (lsearch_t::m_last_step_size [mutable], the lsearch0 / lsearchk objects\' own members) that lsearch_t::get() const writes belongs to that per-call pair; what else is written is the caller\'s function object (mutable evaluation counters), states and vectors',
+            'LOSS shared by every task: error / value / vgrad const of every registered loss (16 flatten_loss_t instantiations [quick tier: 3 of them, one per kernel family; thorough tier: all] + pinball) and the three resizing wrappers write nothing of the loss object (only the caller\'s output)',
+            'DATASET shared by every task: dataset_t::flatten(samples, buffer) const, select(samples, feature, buffer) const (4 buffer kinds), byfeature() const write only the caller\'s buffer: nothing of the dataset and nothing of the generators it owns through unique_ptr',
+            'DATASET ITERATORS shared by the chunk tasks of one loop(): targets_iterator_t::targets(tnum, range) const / flatten_iterator_t::flatten(tnum, range) const and the three loop(callback) chunk tasks write only m_targets_buffers[tnum] / m_flatten_buffers[tnum] [mutable]; the four select_iterator_t::loop(samples, features, callback) chunk tasks write only m_buffers[tnum].m_<kind>; the four loop(samples, ifeature, callback) write only m_buffers[0].m_<kind> of the (caller-local) iterator; the cached tensors, statistics, sample indices and the dataset are only read; tnum < size of the buffers vector is a checked obligation of every access (precondition: tnum < concurrency(), C17)',
+            'OBJECTIVE FUNCTIONS (one per (trial, fold) task, shared by its chunk tasks): the chunk task of linear::function_t::do_vgrad writes only m_accumulators[tnum] [mutable]; the chunk tasks of gboost scale_function_t / bias_function_t::do_vgrad write only m_accumulators[tnum] and rows [begin, end) of m_values / m_vgrads / m_outputs [mutable], grads_function_t::gradients only rows [begin, end) of m_values / m_vgrads (stated at a ghost row: a row outside the task\'s range is not written); loss, iterator, cluster, outputs of the other learners are only read',
+            'TUNING RESULT shared by the (trial, fold) tasks of ml::tune: result_t::store(trial, fold, ..) writes only cell (trial, fold) of m_values and index trial * folds + fold of m_extras (ghost cell / ghost index; the index arithmetic is uninterpreted, injectivity of (trial, fold) -> index is C13); closest_trial / extra / log_path const write nothing; the task lambda writes the result only through store at its own slot (old_trials + index / folds, index % folds), and the only m_extras slot it READS is (closest_trial, fold) with closest_trial < old_trials (a completed batch) or its own slot -- so no task reads a slot another running task writes',
+            'FITTED WEAK LEARNERS: the per-sample predict operators of stump / affine / hinge (both sides) / table and dtree_wlearner_t::do_predict const write only the caller\'s outputs view, nothing of the learner',
+            'LEMMA ("bit-identical to the same call executed alone", reduced to the frames above; not a separate proof): let f be one of the const functions above, called on a shared object S with its own arguments A.  By the frame of f (and of everything else the library runs concurrently on S: the targets of this spec), no concurrently running call writes S or A\'s inputs; the callees f reaches are the same sequential code; therefore every read f performs returns the value it would return if f ran alone, and f -- sequential, deterministic C++ without reads of clocks, random devices or addresses -- computes the same outputs bit for bit.  Assumes: (a) the frame proofs cover every function that runs concurrently on S (they cover the library\'s own sharing listed here, not arbitrary user code); (b) the erased callees write only what they are handed (assumption list); (c) the disjointly written slots really are used by one running task at a time (C17, monitor semantics); (d) no data-dependent non-determinism inside f (uninitialised reads, iteration over pointer-keyed containers): not checked',
+        ],
+        'not_decided': [
+            'interleaving semantics itself: the pool\'s mutex / condition-variable protocol, that two tasks running at the same time have different tnum, that map() returns only after every task finished (C17 proves the sequential protocol under monitor semantics; the schedule quantifier stays open)',
+            'schedule independence of the REDUCTION: sum_reduce adds the per-thread accumulators in index order, but which samples went into which accumulator depends on the schedule: floating-point re-association (the property\'s 1e-5 clause) is not decided',
+            'the remaining solver bodies (27 of 36 registered solvers: non line-search ones, bundle / ellipsoid / gradient sampling / universal / penalty), lsearch0 / lsearchk implementations (they run on the per-call clones), program::solver_t; generator_t implementations (flatten / select of ~10 generator classes: assumed const-clean), dataset_t::targets / select(target) (generic visitor lambdas, not extractable), datasource_t, scalar_stats_t::scale, splitter_t::split and tuner_t::optimize (run on the calling thread, before / around the parallel section), wlearner fit (runs on per-task clones), cache_flatten / cache_targets (non-const, run before sharing), linear::evaluate / gboost::evaluate / linear_t::do_predict chunk tasks (rows of caller-local tensors)',
+            'loggers: every logger call is dropped from the extracted text (per-task file loggers are made inside the task; what a shared std::ostream does under concurrent writes is outside the model)',
+            'user code: function objects, callbacks and custom tuners / generators supplied by a caller',
+            'determinism clause (d) of the lemma; ThreadSanitizer-style dynamic evidence',
+        ],
+        'assumptions': [
+            'erased callees: a function that only receives objects of owner / view types (tensors, Eigen, std::vector / string / map / any, feature_t, scalar_stats_t, cluster_t, parameter_t ...: value semantics, deep constness) writes only what it is handed by non-const reference or pointer (charged at the call) or state with static storage duration (the lint: only init-once factory singletons exist); this covers Eigen, the STL, tensor_t members, linear::predict, store_stats, resize_and_map, the loss kernels tloss::value / vgrad / error, make_range, make_file_logger',
+            'a write is charged where the mutable access path is created (non-const member call, binding to a non-const reference, address-of, assignment, ++, a cast that drops const); a view of const data (tensor_cmap_t, Eigen::Map<const T>) cannot be written through whatever overload clang picked; the view object itself only changes by an assignment written in the function',
+            'virtual const callees used through an assumed frame: lsearch0_t::clone / lsearchk_t::clone return a new object (every implementation is std::make_unique<T>(*this)); generator_t::flatten / select const read the generator; wlearner_t::split const (do_split of the learner) reads the learner; dataset_t::check throws or returns; dataset_t::targets / flatten / select as used by the iterators write only the buffer handed in (flatten and select(feature) are proved here, targets and select(target) are assumed)',
+            'virtual NON-const callees lsearch0_t::get / lsearchk_t::get write their own object (whole footprint) and the state handed in; gboost::accumulator_t::update writes its own object',
+            'the function object, solver_state_t values, vectors and loggers of a minimize() call belong to the calling thread (property: "each with its own function object"): erased or assigned wholesale',
+            'std::function callbacks (loop callbacks, the fit callback of ml::tune) are opaque: their effects go to a ghost cell; the library\'s own callbacks are the objective-function / wlearner tasks proved separately',
+            'PRECONDITIONS with their guarantors: tnum < size of every per-thread buffers vector (vectors are sized with concurrency() == pool size in the constructors; C17: tnum < pool size); 1 <= pool size <= 4096 (bound of the symbolic buffers vector in the harness; pool_t clamps to hardware_concurrency); for ml::tune\'s task: folds == result.folds() >= 1, result.add() ran before the map (C13), 0 <= index < folds * new_trials decodes to trial in [0, new_trials), fold in [0, folds) (C13 tune::thread_callback, C17 map_index), closest_trial(params, m) in [0, m) or 0 (C13 result_closest_trial), and THE FIRST BATCH OF A TUNING RUN HAS ONE TRIAL (tuner_t::optimize -- non-virtual -- starts with evaluate(.., igrids_t{avg_igrid}, ..), src/tuner.cpp; without parameter spaces ml::tune passes tensor2d_t{1, 0}): with two or more trials in a first batch every task (t >= 1, f) would read m_extras[f] while task (0, f) writes it',
+            'integer * / % in the tune / result targets are uninterpreted functions (congruence only); double arithmetic is erased; arithmetic overflow is not an obligation of the frame targets (C02 / C13 / C16 / C17 own it)',
+        ],
+        'trusted': ['specs/C18/frame.py: the possibly-mutating-mention analysis over clang\'s AST (const-qualification of expression types, implicit NoOp casts to const, lvalue-to-rvalue conversions) and the struct layouts generated from FieldDecls'],
+    }
